@@ -183,6 +183,8 @@ fn hsr_total<const N: usize>() {
     if let Ok(h) = &r {
         kani::cover!(true, "decoded");
         assert!(h.block_fetch_url.len() + 142 <= N);
+    } else {
+        kani::cover!(true, "rejected");
     }
     std::mem::forget(r);
 }
@@ -207,6 +209,8 @@ fn block_total<const N: usize>() {
     if let Ok(b) = &r {
         kani::cover!(true, "decoded");
         assert!(b.transactions.len() * 93 + 389 <= N);
+    } else {
+        kani::cover!(true, "rejected");
     }
     std::mem::forget(r);
 }
